@@ -118,7 +118,7 @@ func checkC03(c *Ctx) {
 		"(C03.kw) every keyword token of the manual's table is consumed somewhere in the grammar; (C03.syn) synonymous spellings are interchangeable: Chinese/ASCII punctuation pairs map to one token type, 之/的 and 设为/= appear together in every consume set; " +
 		"(C03.linebreak) the line-continuation exception lists equal the manual's sets ({， 、 { 【 ： ？} before / {】 }} after a line end) and each hashmap entry resets the statement-complete flag like its siblings; " +
 		"(C03.indent) block membership is decided only by equality of indentation levels (never by an ordering comparison); (C03.sections) the section state of a program / exec block only moves forward (导入 -> statements; 输入 -> statements -> 拦截) and a body may end only in the statement or catch state. " +
-		"(C03.yield) the 得到 suffix has one owner per production: a production (or the production calling a chain helper) that consumes 得到 itself passes parseYieldResult=false to its inner calls; (C03.linebreak) additionally the line-break test compares the following token's start line with the current token's END line. NOT decided: equality of the tree with the BNF for all programs and layout-invariance as such (they quantify over all renderings); operator precedence is C01."
+		"(C03.yield) the 得到 suffix has one owner per production: a production (or the production calling a chain helper) that consumes 得到 itself passes parseYieldResult=false to its inner calls; (C03.linebreak) additionally the line-break test compares the following token's start line with the current token's END line. The token's start / end line indices are FindLineIdx of its StartIdx / EndIdx; (C03.ident = C04.ident) where a name ends, including before every token that starts with '/'. NOT decided: equality of the tree with the BNF for all programs and layout-invariance as such (they quantify over all renderings); operator precedence is C01."
 	R.Assumptions = []string{"the required-field table in c03.go lists the fields pkg/exec dereferences without a nil test (reviewed)", "tables/keywords.json"}
 	u := c.Core()
 	u.buildSSA()
